@@ -1,4 +1,5 @@
 import SwcVerif.Props.C03
+import SwcVerif.Props.C03Cat
 #print axioms C03.wf_of_sorted
 #print axioms C03.sort_wf
 #print axioms C03.subtree_wf
@@ -11,3 +12,5 @@ import SwcVerif.Props.C03
 #print axioms Represent.wf_represented
 #print axioms Represent.represented_wf
 #print axioms Represent.wf_subtree_represented
+#print axioms C03.op2_wf
+#print axioms C03.pipeline2_wf
